@@ -33,6 +33,20 @@
 (* The property: the wallet is visibly unlocked only while authorised, and *)
 (* a request returns a secret only while authorised.                       *)
 (*                                                                         *)
+(* The timeout is an OBLIGATION, not only a possibility.  Ghost oblig: a    *)
+(* successful unlock with a timeout promises a lock at its deadline; the   *)
+(* promise is discharged by the timer firing, and dropped by a lock or by  *)
+(* a NEW SUCCESSFUL unlock (with a timeout: replaced by a new promise) -   *)
+(* never by a failed or ticket-only unlock or any other request.  ObligInv *)
+(* says a pending promise always has an armed timer behind it.  Ghost      *)
+(* passed: the deadline went by and no successful unlock happened since;   *)
+(* DeadlineInv: then the wallet is locked.  TimerFire is "the deadline of  *)
+(* the armed timer is reached": the harness realises it by waiting.        *)
+(* What the code does when a timer is still armed after an unlock WITHOUT  *)
+(* timeout (resetTimeout is not called, the old timer still fires and      *)
+(* locks) is modelled as it is, but is not an obligation: the property     *)
+(* allows either.                                                          *)
+(*                                                                         *)
 (* Passwords are identifiers: 0 is the initial password, a password change *)
 (* request carries a fresh identifier (-1 = a syntactically invalid new    *)
 (* password), -1 as presented password = a string that never was valid.    *)
@@ -50,23 +64,25 @@ CONSTANTS Callers,     \* caller ids (small integers)
           GenMode,     \* TRUE: only schedules the gated harness can enforce on the real code
           EmitOn       \* FALSE in exhaustive runs: the JSON label is not built
 
-VARIABLES flag, auth, mtx, timer, pwd, pc, rq, tmp, ret, nops, act
-vars == <<flag, auth, mtx, timer, pwd, pc, rq, tmp, ret, nops, act>>
-view == <<flag, auth, mtx, timer, pwd, pc, rq, tmp, ret, nops>>
+VARIABLES flag, auth, mtx, timer, oblig, passed, pwd, pc, rq, tmp, ret, nops, act
+vars == <<flag, auth, mtx, timer, oblig, passed, pwd, pc, rq, tmp, ret, nops, act>>
+view == <<flag, auth, mtx, timer, oblig, passed, pwd, pc, rq, tmp, ret, nops>>
 
-AllOps == {"Unlock", "Lock", "SetPasswd", "Dump", "Sign", "GetSeed", "IsLocked", "Status"}
+AllOps == {"Unlock", "UnlockT", "Lock", "SetPasswd", "Dump", "Sign", "GetSeed", "IsLocked", "Status"}
 \* as far as the model is concerned Sign is Dump and Status is IsLocked
-CoreOps == {"Unlock", "Lock", "SetPasswd", "Dump", "GetSeed", "IsLocked"}
+CoreOps == {"Unlock", "UnlockT", "Lock", "SetPasswd", "Dump", "GetSeed", "IsLocked"}
+\* the requests around the unlock timeout
+TimerOps == {"Unlock", "UnlockT", "GetSeed", "IsLocked", "Dump"}
 
 Free == 0                                   \* mtx value when nobody holds it (callers are > 0)
 NoReq == [op |-> "none", pw |-> -1, tmo |-> 0, new |-> -1]
-MutexOps == {"Unlock", "SetPasswd", "Dump", "Sign", "GetSeed"}
+MutexOps == {"Unlock", "UnlockT", "SetPasswd", "Dump", "Sign", "GetSeed"}
 SecretOps == {"Dump", "Sign", "GetSeed"}
 
 Emit(r) == act' = IF EmitOn THEN ToJson(r) ELSE ""
 Chk == [locked |-> (flag' = 1)]
 
-Init == /\ flag = 1 /\ auth = FALSE /\ mtx = Free /\ timer = FALSE /\ pwd = 0
+Init == /\ flag = 1 /\ auth = FALSE /\ mtx = Free /\ timer = FALSE /\ oblig = FALSE /\ passed = FALSE /\ pwd = 0
         /\ pc = [c \in Callers |-> "idle"]
         /\ rq = [c \in Callers |-> NoReq]
         /\ tmp = [c \in Callers |-> 1]
@@ -79,7 +95,7 @@ Presented == {-1, 0, pwd}
 Requests ==
   {[op |-> "Unlock", pw |-> p, tmo |-> t, new |-> -1] : p \in Presented, t \in {0, 1}}
   \cup {[op |-> "SetPasswd", pw |-> p, tmo |-> 0, new |-> n] : p \in Presented, n \in {-1, nops + 1}}
-  \cup {[op |-> "GetSeed", pw |-> p, tmo |-> 0, new |-> -1] : p \in Presented}
+  \cup {[op |-> o, pw |-> p, tmo |-> 0, new |-> -1] : o \in {"GetSeed", "UnlockT"}, p \in Presented}
   \cup {[op |-> o, pw |-> -1, tmo |-> 0, new |-> -1] : o \in {"Lock", "Dump", "Sign", "IsLocked", "Status"}}
 
 SPInFlight == \E c \in Callers : pc[c] \in {"sp2", "sp3"}
@@ -91,13 +107,16 @@ Start(c, r) ==
                 \* exhaustive run and to the recorded (ungated) executions
        /\ (SPInFlight => r.op \notin {"Unlock", "SetPasswd"})
        /\ (r.op = "SetPasswd" => \A d \in Callers : rq[d].op # "SetPasswd")
-       /\ (timer => r.op \notin {"Unlock", "Lock"})
+       \* while a timer is armed: no lock (its firing would be invisible) and no unlock that
+       \* succeeds (it would move the deadline); unlocks that FAIL and ticket-only unlocks are
+       \* exactly what must not disturb the pending timeout
+       /\ (timer => (r.op # "Lock" /\ (r.op = "Unlock" => r.pw # pwd)))
        /\ (r.op = "Unlock" /\ r.tmo = 1 => \A d \in Callers : pc[d] = "idle")
   /\ pc' = [pc EXCEPT ![c] = "run"]
   /\ rq' = [rq EXCEPT ![c] = r]
   /\ ret' = [ret EXCEPT ![c] = "-"]
   /\ nops' = nops + 1
-  /\ UNCHANGED <<flag, auth, mtx, timer, pwd, tmp>>
+  /\ UNCHANGED <<flag, auth, mtx, timer, oblig, passed, pwd, tmp>>
   /\ Emit([op |-> "Start", c |-> c, req |-> r,
            blocked |-> (r.op \in MutexOps /\ mtx # Free), chk |-> Chk])
 
@@ -108,13 +127,13 @@ Finish(c, v) == /\ pc' = [pc EXCEPT ![c] = "done"]
 DoObserve(c) ==
   /\ pc[c] = "run" /\ rq[c].op \in {"IsLocked", "Status"}
   /\ Finish(c, IF flag = 1 THEN "locked" ELSE "unlocked")
-  /\ UNCHANGED <<flag, auth, mtx, timer, pwd, rq, tmp, nops>>
+  /\ UNCHANGED <<flag, auth, mtx, timer, oblig, passed, pwd, rq, tmp, nops>>
 
 DoLock(c) ==
   /\ pc[c] = "run" /\ rq[c].op = "Lock"
-  /\ flag' = 1 /\ auth' = FALSE
+  /\ flag' = 1 /\ auth' = FALSE /\ oblig' = FALSE
   /\ Finish(c, "ok")
-  /\ UNCHANGED <<mtx, timer, pwd, rq, tmp, nops>>
+  /\ UNCHANGED <<mtx, timer, passed, pwd, rq, tmp, nops>>
 
 \* ---- operations whose whole body runs under the mutex and reads the flag once ----
 DoSecret(c) ==
@@ -122,14 +141,20 @@ DoSecret(c) ==
   /\ Finish(c, IF flag = 1 THEN "locked"
                ELSE IF rq[c].op = "GetSeed" /\ rq[c].pw # pwd THEN "badpw"
                ELSE "secret")
-  /\ UNCHANGED <<flag, auth, mtx, timer, pwd, rq, tmp, nops>>
+  /\ UNCHANGED <<flag, auth, mtx, timer, oblig, passed, pwd, rq, tmp, nops>>
+
+\* ---- ProcWalletUnLock with WalletOrTicket = TRUE: verifies the password, leaves flag and timer alone ----
+DoUnlockT(c) ==
+  /\ pc[c] = "run" /\ rq[c].op = "UnlockT" /\ mtx = Free
+  /\ Finish(c, IF rq[c].pw = pwd THEN "ok" ELSE "fail")
+  /\ UNCHANGED <<flag, auth, mtx, timer, oblig, passed, pwd, rq, tmp, nops>>
 
 \* ---- ProcWalletUnLock: verify, CAS(flag,1,0); then (still under the mutex) arm the timer ----
 DoUnlock1(c) ==
   /\ pc[c] = "run" /\ rq[c].op = "Unlock" /\ mtx = Free
   /\ IF rq[c].pw # pwd
-       THEN /\ Finish(c, "fail") /\ UNCHANGED <<flag, auth, mtx>>
-       ELSE /\ flag' = 0 /\ auth' = TRUE
+       THEN /\ Finish(c, "fail") /\ UNCHANGED <<flag, auth, mtx, oblig, passed>>
+       ELSE /\ flag' = 0 /\ auth' = TRUE /\ oblig' = FALSE /\ passed' = FALSE
             /\ IF rq[c].tmo = 0
                  THEN Finish(c, "ok") /\ UNCHANGED mtx
                  ELSE /\ mtx' = c /\ pc' = [pc EXCEPT ![c] = "u2"] /\ UNCHANGED ret
@@ -137,9 +162,9 @@ DoUnlock1(c) ==
 
 DoUnlock2(c) ==
   /\ pc[c] = "u2"
-  /\ timer' = TRUE /\ mtx' = Free
+  /\ timer' = TRUE /\ mtx' = Free /\ oblig' = TRUE
   /\ Finish(c, "ok")
-  /\ UNCHANGED <<flag, auth, pwd, rq, tmp, nops>>
+  /\ UNCHANGED <<flag, auth, passed, pwd, rq, tmp, nops>>
 
 \* ---- ProcWalletSetPasswd ----
 DoSP1(c) ==
@@ -148,13 +173,13 @@ DoSP1(c) ==
        THEN /\ Finish(c, "fail") /\ UNCHANGED <<mtx, tmp>>
        ELSE /\ mtx' = c /\ tmp' = [tmp EXCEPT ![c] = flag]
             /\ pc' = [pc EXCEPT ![c] = "sp2"] /\ UNCHANGED ret
-  /\ UNCHANGED <<flag, auth, timer, pwd, rq, nops>>
+  /\ UNCHANGED <<flag, auth, timer, oblig, passed, pwd, rq, nops>>
 
 DoSP2(c) ==
   /\ pc[c] = "sp2"
   /\ flag' = IF TempUnlock THEN 0 ELSE flag
   /\ pc' = [pc EXCEPT ![c] = "sp3"]
-  /\ UNCHANGED <<auth, mtx, timer, pwd, rq, tmp, ret, nops>>
+  /\ UNCHANGED <<auth, mtx, timer, oblig, passed, pwd, rq, tmp, ret, nops>>
 
 DoSP3(c) ==
   /\ pc[c] = "sp3"
@@ -164,9 +189,9 @@ DoSP3(c) ==
         /\ Finish(c, IF good THEN "ok" ELSE "fail")
   /\ flag' = IF TempUnlock /\ flag = 0 THEN tmp[c] ELSE flag
   /\ mtx' = Free
-  /\ UNCHANGED <<auth, timer, rq, tmp, nops>>
+  /\ UNCHANGED <<auth, timer, oblig, passed, rq, tmp, nops>>
 
-Step(c) == DoObserve(c) \/ DoLock(c) \/ DoSecret(c) \/ DoUnlock1(c) \/ DoUnlock2(c)
+Step(c) == DoObserve(c) \/ DoLock(c) \/ DoSecret(c) \/ DoUnlockT(c) \/ DoUnlock1(c) \/ DoUnlock2(c)
            \/ DoSP1(c) \/ DoSP2(c) \/ DoSP3(c)
 
 \* ---- End: the call returns to the caller ----
@@ -174,7 +199,7 @@ End(c) ==
   /\ pc[c] = "done"
   /\ pc' = [pc EXCEPT ![c] = "idle"]
   /\ rq' = [rq EXCEPT ![c] = NoReq]
-  /\ UNCHANGED <<flag, auth, mtx, timer, pwd, tmp, ret, nops>>
+  /\ UNCHANGED <<flag, auth, mtx, timer, oblig, passed, pwd, tmp, ret, nops>>
   /\ Emit([op |-> "End", c |-> c, kind |-> rq[c].op, ret |-> ret[c], chk |-> Chk])
 
 \* ---- the unlock timer fires ----
@@ -182,6 +207,7 @@ TimerFire ==
   /\ timer
   /\ GenMode => flag = 0                        \* observable by polling
   /\ flag' = 1 /\ auth' = FALSE /\ timer' = FALSE
+  /\ oblig' = FALSE /\ passed' = (passed \/ oblig)
   /\ UNCHANGED <<mtx, pwd, pc, rq, tmp, ret, nops>>
   /\ Emit([op |-> "Timer", chk |-> Chk])
 
@@ -198,6 +224,7 @@ AStart   == \E c \in Callers, r \in Requests : (GenMode => ~AnyUrgent) /\ Start(
 AObserve == \E c \in Callers : MayMove(c) /\ DoObserve(c) /\ Lbl(c)
 ALock    == \E c \in Callers : MayMove(c) /\ DoLock(c) /\ Lbl(c)
 ASecret  == \E c \in Callers : MayMove(c) /\ DoSecret(c) /\ Lbl(c)
+AUnlockT == \E c \in Callers : MayMove(c) /\ DoUnlockT(c) /\ Lbl(c)
 AUnlock1 == \E c \in Callers : MayMove(c) /\ DoUnlock1(c) /\ Lbl(c)
 AUnlock2 == \E c \in Callers : MayMove(c) /\ DoUnlock2(c) /\ Lbl(c)
 ASP1     == \E c \in Callers : MayMove(c) /\ DoSP1(c) /\ Lbl(c)
@@ -206,11 +233,11 @@ ASP3     == \E c \in Callers : MayMove(c) /\ DoSP3(c) /\ Lbl(c)
 AEnd     == \E c \in Callers : MayMove(c) /\ End(c)
 ATimer   == (GenMode => ~AnyUrgent) /\ TimerFire
 
-Next == AStart \/ AObserve \/ ALock \/ ASecret \/ AUnlock1 \/ AUnlock2 \/ ASP1 \/ ASP2 \/ ASP3 \/ AEnd \/ ATimer
+Next == AStart \/ AObserve \/ ALock \/ ASecret \/ AUnlockT \/ AUnlock1 \/ AUnlock2 \/ ASP1 \/ ASP2 \/ ASP3 \/ AEnd \/ ATimer
 Spec == Init /\ [][Next]_vars
 
 -----------------------------------------------------------------------------
-TypeOK == /\ flag \in {0, 1} /\ auth \in BOOLEAN /\ timer \in BOOLEAN
+TypeOK == /\ flag \in {0, 1} /\ auth \in BOOLEAN /\ timer \in BOOLEAN /\ oblig \in BOOLEAN /\ passed \in BOOLEAN
           /\ mtx \in Callers \cup {Free}
           /\ \A c \in Callers : pc[c] \in {"idle", "run", "u2", "sp2", "sp3", "done"}
           /\ (mtx # Free) <=> (\E c \in Callers : pc[c] \in {"u2", "sp2", "sp3"})
@@ -221,6 +248,14 @@ LockInv == flag = 0 => auth
 
 \* ... not even after the request that disturbed the flag has returned
 QuiescentInv == (~SPInFlight /\ flag = 0) => auth
+
+\* "... before the next lock or unlock timeout": a promised timeout keeps an armed timer
+\* behind it whatever requests come in between (failed or ticket-only unlocks included) ...
+ObligInv == oblig => timer
+\* ... the timer locks when its deadline is reached ...
+TimerLocks == [][(timer /\ ~timer') => flag' = 1]_vars
+\* ... and once the deadline has passed the wallet is locked until the next successful unlock
+DeadlineInv == (passed /\ ~SPInFlight) => flag = 1
 
 \* C38, last sentence: a request hands out a secret (private key, seed, signature made
 \* with a stored key) only while the wallet is authorised-unlocked
